@@ -66,7 +66,8 @@ def _init_worker(hang_s):
     except Exception:
         pass
     faulthandler.enable()
-    faulthandler.dump_traceback_later(hang_s, exit=True)
+    # the hang timer is armed per chunk in _call: a worker that is spawned on demand and then stays idle
+    # (another worker took the task) must not be killed for "hanging"
 
 
 def _call(fn, chunk, hang_s):
